@@ -228,8 +228,10 @@ class LessLexer:
         # end at '{', i.e. when a block is opened.
         t.lexer.pop_state()  # state mediaquery
         # We have to pop the 'import' state here because we already ate the
-        # t_semicolon and won't trigger t_import_t_semicolon.
-        t.lexer.pop_state()  # state import
+        # t_semicolon and won't trigger t_import_t_semicolon. (A ';' in a
+        # malformed @media prelude is not inside an import: nothing to pop.)
+        if t.lexer.lexstate == 'import':
+            t.lexer.pop_state()  # state import
         return t
 
     @lex.TOKEN('|'.join(css.media_types))
